@@ -135,6 +135,34 @@ class RtrEngine(object):
                 node.children.reverse()
         return root, nodes
 
+    def gen_snake(self, W, H, length):
+        """One long unbranched route winding over the rows of the machine
+        (a legal tree is as deep as its longest route), with a few leaves on
+        the way and one at the end."""
+        t = self.t
+        RT, Routes = self.RoutingTree, self.Routes
+        path = []
+        x, y, step = 0, 0, 1
+        while len(path) < length and y < H:
+            path.append((x, y))
+            if 0 <= x + step < W:
+                x += step
+            else:
+                y += 1
+                step = -step
+        objs = [RT(xy) for xy in path]
+        nodes = [(None, objs[0])]
+        for i in range(1, len(path)):
+            (ax, ay), (bx, by) = path[i - 1], path[i]
+            link = LINK_VEC.index((bx - ax, by - ay))
+            objs[i - 1].children.append((Routes(link), objs[i]))
+            nodes.append((link, objs[i]))
+        for i in sorted({len(path) - 1} | {t.draw(len(path))
+                                           for _ in range(t.draw(4))}):
+            objs[i].children.append((Routes.core(1 + t.draw(17)),
+                                     "vtx%d" % i))
+        return objs[0], nodes
+
     def join_tree(self, tree, W, H):
         """A new tree whose root is a chip next to some non-root node N of
         ``tree`` and which continues with N's subtree (same objects)."""
@@ -190,6 +218,12 @@ class RtrEngine(object):
         W, H = 1 + t.draw(5), 1 + t.draw(5)
         self.torus = bool(t.draw(2))
         n_trees = t.draw_small(13, 0.75)
+        snake = t.weighted([40, 1])
+        if snake:
+            # a big machine and a route of a thousand hops and more
+            W, H = 40 + t.draw(25), 40 + t.draw(25)
+            n_trees = max(n_trees, 1)
+            w.probe("deep_tree")
         # keys and masks as the caller's 32-bit integers of whatever type
         # (e.g. elements of a numpy key array)
         import numpy
@@ -224,6 +258,9 @@ class RtrEngine(object):
                         t.draw(1 << 32)][t.draw(5)]
                 net_keys[net] = (kt(t.draw(1 << 32) & mask), kt(mask))
             kms.append(net_keys[net])
+            if snake and i == 0:
+                trees[net] = self.gen_snake(W, H, 1100 + t.draw(1500))
+                continue
             trees[net] = self.gen_tree(W, H, 10)
         routes = {net: tr[0] for net, tr in trees.items()}
         exp, conflict = self.fold(trees, net_keys)
@@ -299,6 +336,10 @@ class RtrEngine(object):
                               kind="entry-sources")
         w.ops[-1] += " -> %d chips" % len(tables)
         w.ops_completed += 1
+        if snake:
+            # part B gets the corner of the machine only
+            tables = {xy: e for xy, e in tables.items()
+                      if xy[0] < 4 and xy[1] < 4}
         return tables
 
     # ------------------------------------------------------------------
